@@ -112,20 +112,29 @@ impl EventGen for Container {
     ) -> Result<(OutputList, Option<BoundingBox>)> {
         if let Some(inner_events) = self.0.inner_events(context) {
             // If there's only text/cdata events, apply to current element and render
-            let mut inner_text = None;
+            // Character data may come in several pieces (text before / after a CDATA
+            // section, consecutive CDATA sections): all of it is the element's text.
+            // White space around CDATA sections is layout, not content.
+            let mut pieces: Option<Vec<(bool, String)>> = None;
             for e in inner_events.iter() {
                 if let Some(t) = e.text_string() {
-                    if inner_text.is_none() {
-                        inner_text = Some(t);
-                    }
+                    pieces.get_or_insert_with(Vec::new).push((false, t));
                 } else if let Some(c) = e.cdata_string() {
-                    inner_text = Some(c);
+                    pieces.get_or_insert_with(Vec::new).push((true, c));
                 } else {
                     // not text or cdata - abandon the effort and mark as such.
-                    inner_text = None;
+                    pieces = None;
                     break;
                 }
             }
+            let inner_text = pieces.map(|pieces| {
+                let has_cdata = pieces.iter().any(|(cdata, _)| *cdata);
+                pieces
+                    .into_iter()
+                    .filter(|(cdata, s)| *cdata || !has_cdata || !s.trim().is_empty())
+                    .map(|(_, s)| s)
+                    .collect::<String>()
+            });
             // Standard SVG allows `x` / `y` of a text element to be coordinate lists or
             // lengths with units; such an element has no computable anchor so it can't
             // be re-generated from a `text` attribute, and is passed through as it is.
